@@ -74,6 +74,7 @@ func c07Build(id int, raw json.RawMessage) *Job {
 	}
 	r := scRenderMode(tc.Items, scModeOf(raw, scSeed))
 	pc := &proto.Case{ID: id, Files: r.files(), Init: json.RawMessage(allOnLocal)}
+	scMaybeProject(pc, r)
 	return &Job{PC: pc, Data: &c07Data{&tc, r}}
 }
 
